@@ -458,14 +458,20 @@ func ReadFromTTML(i io.Reader) (o *Subtitles, err error) {
 		}
 
 		// Remove items identation
-		lines := strings.Split(ts.Items, "\n")
-		for i := 0; i < len(lines); i++ {
-			lines[i] = strings.TrimLeftFunc(lines[i], unicode.IsSpace)
+		var innerXML string
+		for _, line := range strings.Split(ts.Items, "\n") {
+			line = strings.TrimLeftFunc(line, unicode.IsSpace)
+
+			// A line break inside a tag or inside a text separates two words
+			if len(innerXML) > 0 && len(line) > 0 && !strings.HasSuffix(innerXML, ">") && !strings.HasPrefix(line, "<") {
+				innerXML += " "
+			}
+			innerXML += line
 		}
 
 		// Unmarshal items
 		var items = TTMLInItems{}
-		if err = newTTMLXmlDecoder(strings.Join(lines, "")).Decode(&items); err != nil {
+		if err = newTTMLXmlDecoder(innerXML).Decode(&items); err != nil {
 			err = fmt.Errorf("astisub: unmarshaling items failed: %w", err)
 			return
 		}
